@@ -1,3 +1,4 @@
+#![allow(dead_code, unused_imports, unused_mut, unused_variables, private_interfaces)]
 //! vh — verification harness for mibes404/zeep (property-based testing and fuzzing).
 //!   vh <ID> quick|thorough
 //!   vh replay <file>
@@ -29,6 +30,17 @@ fn main() {
         [cmd, file] if cmd == "replay" => replay(file),
         [cmd, file] if cmd == "gen-worker" => c12::gen_worker(file),
         [cmd, file] if cmd == "show" => c01::show(file),
+        [cmd, dir] if cmd == "dump-corpus" => {
+            // triage helper: write the output for every repository input into <dir>
+            zeep::install_panic_hook();
+            std::fs::create_dir_all(dir).unwrap();
+            for (l, fs) in zeep::repo_corpus() {
+                let out = worker::run_single(&fs);
+                let name = l.replace('/', "_");
+                std::fs::write(format!("{dir}/{name}.txt"), match &out { worker::Outcome::Ok { output, .. } => output.clone(), o => format!("{o:?}") }).unwrap();
+            }
+            0
+        }
         [cmd] if cmd == "worker" => worker::worker_main(),
         [id, tier] => {
             let tier = match tier.as_str() {
